@@ -29,13 +29,16 @@ SHAPES = [
 SHAPES += [("q*q-q (repeated)", 2, lambda a, b: B("-", B("*", a, a), b)), ("q+c", 1, lambda a: B("+", a, N("1"))), ("c-q/q", 2, lambda a, b: B("-", N("0.5"), B("/", a, b)))]
 SHAPES += [("tiny*q+q", 2, lambda a, b: B("+", B("*", N("1e-13"), a), b)), ("digits*q", 1, lambda a: B("*", N("1.23456789e-7"), a)),
            ("huge*q-q", 2, lambda a, b: B("-", B("*", N("1e15"), a), b)), ("q/big", 1, lambda a: B("/", a, N("3e12")))]
+# a factored difference raised to a power, scaled, evaluated near its root (the first measurement vector puts the first
+# register at 1.3): the written form is well conditioned there, its expanded polynomial is not
+SHAPES += [("(c*(q-a))**5", 1, lambda a: B("**", B("*", B("-", a, N("1.3001")), N("1000")), N("5"))), ("((q-a)*c)**7-q", 2, lambda a, b: B("-", B("**", B("*", B("-", a, N("1.29")), N("50")), N("7")), b))]
 # declared variables whose names contain something that looks like a register
 SHAPES += [("freq1*q", 1, lambda a: B("*", V("freq1"), a)), ("q/sq2-q", 2, lambda a, b: B("-", B("/", a, V("sq2")), b)), ("q1a+q*q0x", 1, lambda a: B("+", V("q1a"), B("*", a, V("q0x")))),
            ("q-aq10", 1, lambda a: B("-", a, V("aq10")))]
 SHAPES_T = [("q*q*q-q", 4, lambda a, b, c, d: B("-", B("*", B("*", a, b), c), d)), ("q**2-q/q", 3, lambda a, b, c: B("-", B("**", a, N("2")), B("/", b, c)))]
 
 
-LIGHT = {"freq1*q", "q/sq2-q", "q1a+q*q0x", "q-aq10", "tiny*q+q", "digits*q", "huge*q-q", "q/big", "q*q-q (repeated)", "q+c", "c-q/q"}
+LIGHT = {"(c*(q-a))**5", "((q-a)*c)**7-q", "freq1*q", "q/sq2-q", "q1a+q*q0x", "q-aq10", "tiny*q+q", "digits*q", "huge*q-q", "q/big", "q*q-q (repeated)", "q+c", "c-q/q"}
 
 
 def make_script(expr, pos, context):
@@ -54,6 +57,10 @@ def make_script(expr, pos, context):
     x = [x] + [("decl", "float", nm, N(val)) for nm, val in (("freq1", "0.75"), ("sq2", "1.5"), ("q1a", "2.25"), ("q0x", "0.25"), ("aq10", "3.5")) if nm in used]
     if context == "plain":
         items = x + [s]
+    elif context == "after-select":
+        # the registers were measured with post-selection earlier on (a later argument still depends on the register)
+        items = x + [("stmt", "MeasureHomodyne", [], [("phi", N("0")), ("select", N("0.3"))], [N("0")], "none"), ("stmt", "MeasureFock", [], [("select", lang.L(N("1"), N("2")))], [N("1"), N("3")], "sq"),
+                     s, ("stmt", "MeasureX", None, [], [N("0")], "none"), s]
     elif context == "after-measure":
         items = x + [("stmt", "MeasureX", None, [], [N("0")], "none"), s, ("stmt", "H", [N("3")], [], [N("1")], "none")]
     else:   # loop: the same statement node is replayed with a coefficient taken from the loop variable
@@ -117,8 +124,10 @@ def build(ctx):
             perms = perms[:3]
         for rs in perms:
             for pos in ("pos", "kw") + (("both",) if (not ctx.quick or k <= 2) and not light else ()) + (("two-sets",) if (k <= 2 and not light and (not ctx.quick or rs == tuple(sorted(rs, key=str)))) else ()):
-                for context in ("plain", "after-measure", "loop") if not light else ("plain", "loop"):
+                for context in ("plain", "after-measure", "after-select", "loop") if not light else ("plain", "loop"):
                     if context == "after-measure" and pos != "pos":
+                        continue
+                    if context == "after-select" and (pos != "kw" or (ctx.quick and rs != tuple(sorted(rs, key=str)))):
                         continue
                     if ctx.quick and context == "loop" and k == 3 and rs != tuple(sorted(rs, key=str)):
                         continue
@@ -155,7 +164,7 @@ def run(ctx):
     cov = {"states": len(cases), "transitions": schedules, "traces_validated_against_impl": schedules,
            "samples": [repr(c) for c in common.sample(cases, 5)],
            "evaluations": schedules, "distinct_nontrivial": multi,
-           "rule": "cases = expression shape x every ordered choice of distinct registers x {positional, keyword, both, next to arguments over other registers} x {plain, after a measurement, inside a for-loop with the loop variable as coefficient}; "
+           "rule": "cases = expression shape x every ordered choice of distinct registers x {positional, keyword, both, next to arguments over other registers} x {plain, after a measurement, after post-selected measurements of the same modes, inside a for-loop with the loop variable as coefficient}; "
                    "for every case all combinations of iteration orders at every symbol-set iteration made from blackbird code (k! per site) are executed (`transitions` = complete schedules); "
                    "non-trivial = cases with more than one schedule; `listing_orders_seen` = histogram of how many distinct register listing orders were observed per case",
            "cases": len(cases), "cases_with_gt1_schedule": multi, "capped_cases": capped, "listing_orders_seen": dict(order_hist), "exhaustive": capped == 0}
